@@ -144,6 +144,12 @@ class RetryFuture(_Future):
     def _clear_executor(cls, future):
         with future._me_lock:
             future._executor = None
+            # A finished future has no use for the delegate of its last attempt
+            # any more.  Not every path to completion clears it (a cancel while
+            # waiting for the next attempt doesn't), and a plain
+            # concurrent.futures.Future keeps its done-callbacks - hence this
+            # executor and its threads - alive for as long as it is referenced.
+            future.delegate_future = None
 
     def __terminate_via(self, method, *args, **kwargs):
         with self._me_lock:
